@@ -12,7 +12,7 @@ package state
 
 //@ func (*Validator).DecodeRLP props C14
 //@ requires v != nil
-//@ modifies all, c14Consumed, c14K, c14Sz, c14P
+//@ modifies all, c14Consumed, c14K, c14Sz, c14P, c14E
 //@ assert before return#1: [Name] v.Name == r.Name
 //@ assert before return#1: [OperatorAddress] v.OperatorAddress == r.OperatorAddress
 //@ assert before return#1: [Coinbase] v.Coinbase == r.Coinbase
@@ -39,7 +39,7 @@ package state
 
 //@ func (*ValKindStat).DecodeRLP props C14
 //@ requires v != nil
-//@ modifies all, c14Consumed, c14K, c14Sz, c14P
+//@ modifies all, c14Consumed, c14K, c14Sz, c14P, c14E
 //@ assert before return#1: [onlineStake] v.onlineStake == data.Stake
 //@ assert before return#1: [onlineToken] v.onlineToken == data.Token
 //@ assert before return#1: [onlineCount] v.onlineCount == data.Count
@@ -54,7 +54,7 @@ package state
 // nil-map obligations of the six assignments are not provable.
 //@ func (*ValidatorsStat).DecodeRLP props C14
 //@ requires m != nil && m.Kinds != nil && m.Roles != nil && s != nil
-//@ modifies all, c14Consumed, c14K, c14Sz, c14P
+//@ modifies all, c14Consumed, c14K, c14Sz, c14P, c14E
 //@ assert before return#1: [KindValidator] m.Kinds[params.KindValidator] == data.KindValidator
 //@ assert before return#1: [KindChamber] m.Kinds[params.KindChamber] == data.KindChamber
 //@ assert before return#1: [KindHouse] m.Kinds[params.KindHouse] == data.KindHouse
@@ -65,5 +65,5 @@ package state
 //@ func (*Validators).DecodeRLP props C14
 //@ panics none
 //@ requires s != nil && stream != nil
-//@ modifies all, c14Consumed, c14K, c14Sz, c14P
+//@ modifies all, c14Consumed, c14K, c14Sz, c14P, c14E
 //@ assert before return#1: [validators] s.validators == msg.ValSet
